@@ -294,20 +294,22 @@ theorem ovlIterAux_eq {A : Aut σ α} (hA : StdLike A) (i : Input α) {q0 : σ}
 
 /-! ## the `is_done` early return -/
 
-theorem ovlCalls_done {A : Aut σ α} (hA : StdLike A) (i : Input α) (hd : i.isDone = true)
+theorem ovlCalls_done {A : Aut σ α} (hA : StdLike A) (i : Input α) {q0 : σ}
+    (hq0 : A.start i.anch = some q0) (hd : i.isDone = true)
     (n : Nat) (st : OState σ) :
     ovlCalls A none i n st = List.replicate n (Except.ok Option.none) := by
   have hk : (A.kind != MatchKind.std) = false := by simp [hA.kind]
   induction n generalizing st with
   | zero => rfl
   | succ n ih =>
-    simp [ovlCalls, tryFindOverlappingFwd, hk, hd, ih, List.replicate_succ]
+    simp [ovlCalls, tryFindOverlappingFwd, hk, hd, hq0, ih, List.replicate_succ]
 
-theorem ovlIterAux_done {A : Aut σ α} (hA : StdLike A) (i : Input α) (hd : i.isDone = true)
+theorem ovlIterAux_done {A : Aut σ α} (hA : StdLike A) (i : Input α) {q0 : σ}
+    (hq0 : A.start i.anch = some q0) (hd : i.isDone = true)
     (n : Nat) (st : OState σ) : ovlIterAux A none i n st = [] := by
   have hk : (A.kind != MatchKind.std) = false := by simp [hA.kind]
   cases n with
   | zero => rfl
-  | succ n => simp [ovlIterAux, tryFindOverlappingFwd, hk, hd]
+  | succ n => simp [ovlIterAux, tryFindOverlappingFwd, hk, hd, hq0]
 
 end AcVerif.StdP
